@@ -192,7 +192,7 @@ def _include(cx, mod, fns, label):
       "and the statistics-pruning rules of C12 (sound arms, unknown = may match, gate, SQL -> predicate conversion), evaluated for this property")
 def r6(cx):
     _include(cx, "C07", ["r1", "r2", "r3", "r4", "r5"], "time-range lookup")
-    _include(cx, "C12", ["r1", "r2", "r3", "r4", "r5", "r6"], "statistics pruning")
+    _include(cx, "C12", ["r1", "r2", "r3", "r4", "r5", "r6", "r7"], "statistics pruning")
 
 
 @rule("C04", "R7", "a query is evaluated over exactly the chunks selected for it: the registration rules of C10 that the current code satisfies (serialised registration, short-cut only on the "
